@@ -2,6 +2,7 @@
 //
 //	plan  <cap> <pool> <hist> <op>        => seq=<sites of the whole op> res= pre= post= vis=
 //	crash <cap> <pool> <hist> <op> <k>    => at= pre= post= rec= vis= acc= v1= v2=
+//	visit <cap> <pool> <hist> <op> <k> <j> => vis= started= pre= post= fin=   (walk interleaved with the operation)
 //
 // `crash … k`: the history runs on a scratch directory; the operation under test then runs with a
 // verifhook handler that panics at the (k+1)-th mutation point (k steps are complete; deferred
@@ -90,6 +91,71 @@ func (sc *scen) fork() *fsd.Sess {
 	return fsd.Open(d, sc.cap, fsd.CopyTab(sc.tab))
 }
 
+// countVisitPoints counts the directory reads of VisitMailboxes on the state after the history.
+func countVisitPoints(sc *scen) int {
+	n := 0
+	verifhook.Set(func(site, a string) {
+		if strings.HasPrefix(site, "file.visit.") {
+			n++
+		}
+	})
+	defer verifhook.Set(nil)
+	fsd.Open(sc.base, sc.cap, fsd.CopyTab(sc.tab)).Visit()
+	return n
+}
+
+// visitRun walks VisitMailboxes on one store object while the operation runs on another one (same
+// directory; directory reads take no lock): when the walk is at its k-th yield point the operation
+// starts and runs until it has completed j file-system steps, stays there while the walk finishes, and
+// completes afterwards.
+func visitRun(sc *scen, k, j int) (vis string, started bool, fin string) {
+	a := sc.fork()
+	defer os.RemoveAll(a.Dir)
+	walker := fsd.Open(a.Dir, sc.cap, fsd.CopyTab(sc.tab))
+	parked := make(chan struct{})
+	resume := make(chan struct{})
+	done := make(chan struct{})
+	isParked := false
+	nVisit, nOp := 0, 0
+	verifhook.Set(func(site, arg string) {
+		switch {
+		case strings.HasPrefix(site, "file.visit."):
+			if nVisit == k && !started {
+				started = true
+				go func() {
+					a.Do(sc.op)
+					close(done)
+				}()
+				select {
+				case <-parked:
+					isParked = true
+				case <-done:
+				}
+			}
+			nVisit++
+		case mutationSite(site):
+			if nOp == j {
+				nOp++
+				parked <- struct{}{}
+				<-resume
+				return
+			}
+			nOp++
+		}
+	})
+	vis = walker.Visit()
+	if isParked {
+		close(resume)
+		<-done
+	}
+	verifhook.Set(nil)
+	if !started {
+		a.Do(sc.op)
+	}
+	fin, _ = recovered(a.Dir, sc.cap, a.Tab)
+	return
+}
+
 var accOp = fsd.Op{Kind: "a", Tok: "zz", Date: 1700000000, Seed: []byte("new mail\r\n"), Rep: 1}
 
 // recovered opens a fresh store on the directory and reports state / visit.
@@ -145,7 +211,11 @@ func exec(kind string, in []string) []string {
 	post, pvis := recovered(full.Dir, sc.cap, full.Tab)
 	switch kind {
 	case "plan":
-		return []string{"seq=" + strings.Join(seq, ","), "res=" + res, "pre=" + sc.pre, "post=" + post, "vis=" + pvis}
+		return []string{"seq=" + strings.Join(seq, ","), "res=" + res, "pre=" + sc.pre, "post=" + post, "vis=" + pvis,
+			"nv=" + strconv.Itoa(countVisitPoints(sc))}
+	case "visit":
+		vis, started, fin := visitRun(sc, vh.AtoI(in[4]), vh.AtoI(in[5]))
+		return []string{"vis=" + vis, "started=" + vh.B(started), "pre=" + sc.pre, "post=" + post, "fin=" + fin}
 	case "crash":
 		k := vh.AtoI(in[4])
 		out := []string{}
